@@ -114,6 +114,14 @@ def merge_corpus(tier):
                        ("d", ("l", (rec(1, "x"),))))))
     docs.append(("m", (("p", ("l", (rec(2, "x"),))),
                        ("d", ("l", (rec(2, "x"),))))))
+    # records whose identity is null, next to records without the identity
+    # key at all (an absent key is not a null identity)
+    docs.append(("l", (rec(None, "z"),)))
+    docs.append(("l", (rec(None, "z"), rec(1, "w"))))
+    docs.append(("l", (("m", (("v", "x"),)), rec(None, "y"))))
+    docs.append(("l", (("m", (("v", "x"), ("w", 1))), rec(1, "y"))))
+    docs.append(("m", (("a", ("l", (rec(None, "z"),))),)))
+    docs.append(("m", (("a", ("l", (("m", (("v", "x"),)), rec(2, "y")))),)))
     seen = set()
     out = []
     for d in docs:
